@@ -101,12 +101,11 @@ Definition w_ev (e : ev) : wv :=
   | Delay ms => WL [WI 2; WI ms]
   end.
 
-(* generated cases stay inside durations >= 0, so [neg] is never consulted; literal semantics *)
 Fixpoint exec (pin : Z) (st : bz) (is : list item) : list wv * bz :=
   match is with
   | [] => ([], st)
   | Call mk shown :: r =>
-      let '(st1, evs) := dstep pin neg_literal emitter_melodies st (mk st) in
+      let '(st1, evs) := dstep pin emitter_melodies st (mk st) in
       let '(out, st2) := exec pin st1 r in
       (WL (WI 9 :: map (fun x => wq (Qred x)) (shown st)) :: map w_ev evs ++ out, st2)
   | GetState :: r =>
